@@ -135,6 +135,13 @@ func runW2(s *core.Shard, next func(string) bool) {
 	for _, m := range mains {
 		contents = append(contents, files[m])
 	}
+	// the corpus is materialised once per shard; each case rewrites only the mutated file
+	// (and leaves a copy in the scratch directory in case the load kills the process)
+	corpusDir := filepath.Join(s.Work, "w2-corpus")
+	if err := ld.Materialise(corpusDir, &ld.Case{Files: files}); err != nil {
+		s.Inconclusive("materialise corpus: " + err.Error())
+		return
+	}
 	rng := s.Rand("w2")
 	sing := singles()
 	n := s.Pick(20000, 600000)
@@ -168,7 +175,16 @@ func runW2(s *core.Shard, next func(string) bool) {
 				c.ComposeFiles = []string{"mutant.yaml", main}
 			}
 		}
-		r := check(s, c, expect{Workload: "W2", Generic: main}, nil)
+		target := main
+		if _, ok := c.Files["mutant.yaml"]; ok {
+			target = "mutant.yaml"
+		}
+		_ = os.WriteFile(filepath.Join(s.Scratch(), "mutant.yaml"), []byte(mut), 0o644)
+		_ = os.WriteFile(filepath.Join(corpusDir, target), []byte(mut), 0o644)
+		r := judge(s, corpusDir, c, expect{Workload: "W2", Generic: main}, nil)
+		if target == main {
+			_ = os.WriteFile(filepath.Join(corpusDir, main), []byte(files[main]), 0o644)
+		}
 		s.Add("w2_loads", 1)
 		s.Cover("w2-corpus", main)
 		if mut != files[main] {
